@@ -124,6 +124,12 @@ Theorem C08_resolve_agrees_with_results : forall sch frags, wf_doc sch frags ->
 Proof. exact resolve_agrees. Qed.
 Print Assumptions C08_resolve_agrees_with_results.
 
+(* by construction + tie: the fragments module carries the @mixin imports of EVERY generated fragment, also of
+   those package.py excluded and the worklist re-added *)
+Theorem C08_module_imports_cover : forall imps generated n l x,
+  In n generated -> lookup n imps = Some l -> In x l -> In x (module_imports_of imps generated).
+Proof. exact module_imports_cover. Qed.
+
 (* the listed fragment bases never contain a fragment that another fragment of the resolved set - in
    particular another listed base, earlier or later - inherits: `class X(A, B)` with B a subclass of A
    (the pattern Python's C3 linearisation rejects, former finding C08-MRO) is never emitted.
